@@ -272,6 +272,14 @@ def check(spec):
                       solver=solver)
         out.label("mip" if mip else "lp", "boolmode:" + spec["boolmode"], "dup_rows" if spec["dup"] else None,
                   "soft" if spec.get("soft") else None, "ref:" + str(stref))
+        if spec.get("soft") and mip and not out.violations:
+            # history on the problem object: after the relaxed run the same object is optimised as it stands; the flags
+            # are those of the problem as built (remembered above), whatever the relaxed run left in the object
+            kw2 = {k_: v_ for k_, v_ in kw.items() if k_ != "make_soft_problem"}
+            res3 = eao_call(op.optimize, **kw2)
+            judge(out, op, res3, bools, "raw problem optimised again after a relaxed (make_soft_problem) run of the same object",
+                  True, soft=False, solver=solver)
+            out.label("plain_after_soft")
         if spec.get("edit") and op.A is not None and not out.violations:
             # history on the problem object: edit one row in place and optimise the same object again
             e = spec["edit"]
@@ -331,6 +339,7 @@ def check(spec):
         kw["make_soft_problem"] = True
     if any(len(o.c) == 0 for o in ops):
         return out.drop("empty_problem")
+    bools0 = None if split else lpkit.bools_of_mapping(r.op.mapping)     # the flags of the problem as assembled
     res = eao_call(r.op.optimize, **kw)
     if split:
         # reference per interval
@@ -394,8 +403,13 @@ def check(spec):
             out.fail("split value %.9g is not the sum of the interval optima %.9g" % (float(res.value), tot))
         out.nontrivial = len(ops) >= 2 and not out.violations
         return out
-    stref = judge(out, r.op, res, lpkit.bools_of_mapping(r.op.mapping), "assembled problem", mip and not soft, soft=soft,
+    stref = judge(out, r.op, res, bools0, "assembled problem", mip and not soft, soft=soft,
                   solver=solver)
+    if soft and not out.violations:
+        res3 = eao_call(r.op.optimize, **{k_: v_ for k_, v_ in kw.items() if k_ != "make_soft_problem"})
+        judge(out, r.op, res3, bools0, "assembled problem optimised again after a relaxed (make_soft_problem) run of the same object",
+              True, soft=False, solver=solver)
+        out.label("plain_after_soft")
     if stref == "optimal" and not is_err(res) and not isinstance(res, str):
         raw = lpkit.from_op(r.op)
         tight = lpkit.tight_classes(raw, np.asarray(res.x, float))
